@@ -39,6 +39,20 @@ class Reporter:
         self.new = []
         self.total_new = 0
 
+    def replay_dir(self):
+        d = os.path.join(VERIF, "replays", self.pid)
+        if os.environ.get("VERIF_REPO", "/repo") != "/repo":
+            d = os.path.join(os.environ.get("VERIF_EVIDENCE_DIR", "/tmp/verif_alt_evidence"), "replays", self.pid)
+        return d
+
+    def clean_old_replays(self):
+        """replay files describe the current run only"""
+        d = self.replay_dir()
+        if os.path.isdir(d):
+            for f in os.listdir(d):
+                if f.endswith(".json"):
+                    os.remove(os.path.join(d, f))
+
     def violation(self, key: str, case: dict, what: str):
         """key: stable identity of the failing case. case: JSON-able replay payload."""
         if key in self.known:
